@@ -74,9 +74,12 @@ class State:
         self.env = {}
         self.heap = {}
         self.ghost = {}
+        self.facts = set()      # ids of pc conjuncts that are consequences (definitions of fresh symbols, callee
+        #                         postconditions, proved goals), not branch decisions
 
     def fork(self):
         s = State()
+        s.facts = set(self.facts)
         s.pc = list(self.pc)
         s.env = dict(self.env)
         s.heap = dict(self.heap)
@@ -88,7 +91,16 @@ class State:
             return
         self.pc.append(c)
 
+    def fact(self, c):
+        """assume a consequence: it stays in the path condition (guarded by the decisions before it) but is never
+        used as the selector of a merged value, so that quantifiers do not end up in if-then-else conditions"""
+        if z3.is_true(c):
+            return
+        self.pc.append(c)
+        self.facts.add(c.get_id())
+
     def become(self, other):
+        self.facts = other.facts
         self.pc = other.pc
         self.env = other.env
         self.heap = other.heap
@@ -181,7 +193,7 @@ class Verifier:
         o = Obligation(oid, kind, label, list(st.pc), goal, lineno, self.c.qualname, level)
         self.obligations.append(o)
         if assume:
-            st.assume(goal)
+            st.fact(goal)
 
     def catchable(self, cls):
         """is an exception of class `cls` caught by an enclosing try, or declared in `raises`?"""
@@ -891,8 +903,8 @@ class Verifier:
         n = z3.Length(it.z)
         dom = z3.And(i >= 0, i < n)
         ez = pack(elt, t)
-        st.assume(z3.ForAll([i], z3.Implies(z3.And(dom, cond), z3.Select(r.z, ez))))
-        st.assume(z3.ForAll([y], z3.Implies(z3.Select(r.z, y), z3.Exists([i], z3.And(dom, cond, ez == y)))))
+        st.fact(z3.ForAll([i], z3.Implies(z3.And(dom, cond), z3.Select(r.z, ez))))
+        st.fact(z3.ForAll([y], z3.Implies(z3.Select(r.z, y), z3.Exists([i], z3.And(dom, cond, ez == y)))))
         return r
 
     def comprehension(self, node, st, kind):
@@ -968,8 +980,8 @@ class Verifier:
         if not g.ifs:
             t = type_of(elt)
             r = fresh(SeqT(t), 'map')
-            st.assume(z3.Length(r.z) == n)
-            st.assume(z3.ForAll([i], z3.Implies(z3.And(i >= 0, i < n), r.z[i] == pack(elt, t))))
+            st.fact(z3.Length(r.z) == n)
+            st.fact(z3.ForAll([i], z3.Implies(z3.And(i >= 0, i < n), r.z[i] == pack(elt, t))))
             return r
         if isinstance(node.elt, ast.Name) and isinstance(g.target, ast.Name) and node.elt.id == g.target.id:
             # [x for x in seq if cond(x)]: assumed facts (sound for the real filter): membership
@@ -985,9 +997,9 @@ class Verifier:
                     cx = z3.And(cx, truthy(self.ev(f, sub2)))
             finally:
                 self.spec_mode -= 1
-            st.assume(z3.ForAll([xv], z3.Contains(r.z, z3.Unit(xv)) ==
+            st.fact(z3.ForAll([xv], z3.Contains(r.z, z3.Unit(xv)) ==
                                 z3.And(z3.Contains(it.z, z3.Unit(xv)), cx)))
-            st.assume(z3.Length(r.z) <= n)
+            st.fact(z3.Length(r.z) <= n)
             return r
         raise Unsupported('filter comprehension over unbounded sequence (use a loop contract or SB)')
 
@@ -1344,11 +1356,16 @@ class Verifier:
                                                         for s in states[1:]):
             k += 1
         conds = []
+        full = []
         for s in states:
             suf = s.pc[k:]
-            conds.append(z3.And(*suf) if len(suf) > 1 else (suf[0] if suf else z3.BoolVal(True)))
+            full.append(z3.And(*suf) if len(suf) > 1 else (suf[0] if suf else z3.BoolVal(True)))
+            dec = [c for c in suf if c.get_id() not in s.facts]
+            conds.append(z3.And(*dec) if len(dec) > 1 else (dec[0] if dec else z3.BoolVal(True)))
         out = State()
-        out.pc = list(first[:k]) + [z3.Or(*conds)]
+        out.pc = list(first[:k]) + [z3.Or(*full)]
+        for s in states:
+            out.facts |= {c.get_id() for c in s.pc[:k] if c.get_id() in s.facts}
         # env
         names = set()
         for s in states:
